@@ -11,7 +11,7 @@
    Scripts follow
      cluster/calcium/pod.go   AddPod, RemovePod (withNodesPodLocked: no node => no lock)
      cluster/calcium/node.go  AddNode (no pod lock; Txn: plugin add, store add, rollback plugin remove)
-                              RemoveNode (pod lock; node fetched again; list workloads; Txn: store remove, plugin remove, EMPTY rollback)
+                              RemoveNode (pod lock; node fetched again; list workloads; Txn: status set, store remove, status delete (result ignored), plugin remove, EMPTY rollback)
      cluster/calcium/create.go  alloc under the pod lock, lock released, node fetched
                               again, workload recorded without any lock
      cluster/calcium/remove.go  pod lock, workload lock, usage decrement, record removed
@@ -54,6 +54,8 @@ Inductive rcall :=
 | CCreateNode (n p : string)          (* KV: create-if-absent of the node keys *)
 | CGetNode (n : string)
 | CRemoveNode (n : string)
+| CSetStatus (n : string)             (* store.SetNodeStatus(node, 90) inside RemoveNode: notifies watchers; error only logged *)
+| CDelStatus (n : string)             (* store.SetNodeStatus(node, -1): deletes the status key; result ignored *)
 | CListNodeWls (n : string)
 | CAddWl (id n : string)
 | CRemoveWl (id : string)
@@ -91,6 +93,7 @@ Definition exec (w : rw) (tid : nat) (c : rcall) : option (rw * reply) :=
       Some (if mem n (node_names w) then (w, no) else (set_nodes w ((n, p) :: nodes w), yes))
   | CGetNode n => Some (w, match node_pod w n with Some p => mkRep true [p] | None => no end)
   | CRemoveNode n => Some (set_nodes w (filter (fun x => negb (String.eqb (fst x) n)) (nodes w)), yes)
+  | CSetStatus _ | CDelStatus _ => Some (w, yes)          (* node status keys are not part of Ref *)
   | CListNodeWls n =>
       let ids := map fst (filter (fun x => String.eqb (snd x) n) (wls w)) in
       Some (w, match ids with
@@ -161,10 +164,12 @@ Definition remove_node (n : string) : prog :=
         if negb (r_ok r' && String.eqb (hd_str (r_strs r')) p) then Do (CUnlock (plock p)) (fun _ => Ret false) else
         Do (CListNodeWls n) (fun r2 =>
           if r_ok r2 && is_nil (r_strs r2) then
+           Do (CSetStatus n) (fun _ =>                (* a failure is logged, nothing else *)
             Do (CRemoveNode n) (fun r3 =>
               if negb (r_ok r3) then Do (CUnlock (plock p)) (fun _ => Ret false) else
-              Do (PRemoveNode n) (fun r4 =>           (* no rollback when this fails *)
-                Do (CUnlock (plock p)) (fun _ => Ret (r_ok r4))))
+              Do (CDelStatus n) (fun _ =>             (* "we don't care the result" *)
+                Do (PRemoveNode n) (fun r4 =>         (* no rollback when this fails *)
+                  Do (CUnlock (plock p)) (fun _ => Ret (r_ok r4))))))
           else Do (CUnlock (plock p)) (fun _ => Ret false))))).
 
 (* give the allocation back under the pod lock (create.go rollback) *)
@@ -312,6 +317,7 @@ Definition call_eqb (a b : rcall) : bool :=
   match a, b with
   | CAddPod x, CAddPod y | CListPodNodes x, CListPodNodes y | CGetPod x, CGetPod y | CDeletePod x, CDeletePod y
   | CGetNode x, CGetNode y | CRemoveNode x, CRemoveNode y | CListNodeWls x, CListNodeWls y
+  | CSetStatus x, CSetStatus y | CDelStatus x, CDelStatus y
   | CRemoveWl x, CRemoveWl y | CGetWl x, CGetWl y | PAddNode x, PAddNode y | PRemoveNode x, PRemoveNode y
   | PCapacity x, PCapacity y | PAlloc x, PAlloc y | PRollbackAlloc x, PRollbackAlloc y | PSetUsage x, PSetUsage y
   | CLock x, CLock y | CUnlock x, CUnlock y => String.eqb x y
